@@ -433,6 +433,17 @@ func (loc *Location) WorkWalk(ctx *Context, w *FindRules, steps int) *Condition 
 				wg.Add(len(erc.Children))
 				for _, era := range erc.Children {
 					go func(era *ExecRuleAction) {
+						// Each concurrently executing action gets
+						// its own context.  A Context carries
+						// per-request state (the state's "hook"
+						// privilege, the current location) that
+						// must not be shared: one action's write
+						// otherwise switches another action's
+						// locking off (or its unlocking on).
+						ctx := ctx
+						if ctx != nil {
+							ctx = ctx.SubContext()
+						}
 						if era.Disposition != Complete || c.step() {
 							era.Do(ctx, loc)
 							if era.Disposition == Complete {
